@@ -23,6 +23,10 @@ from vlib.cosched import harness as H
 from vlib.cosched.sched import Abort
 
 SERVICE_CLASS = {"trio": "DSvcTrio", "asyncio": "DSvcAsyncio", "threading": "DSvcThread"}
+#: file names without a known extension; a file called ``.yaml`` is a hidden file without
+#: extension (os.path.splitext, pathlib.Path.suffix), not a YAML file without name
+ODD_FILE_NAMES = ["config", "config.yamlx", "config.yaml.bak", "config.py.orig", "yaml",
+                  ".yaml", ".yml", ".py"]
 ERRORS = ["unknown-extension", "yaml-syntax", "unknown-section", "missing-pipeline",
           "constructor-typeerror", "unknown-tag", "python-raises", "unknown-argument"]
 
@@ -112,7 +116,7 @@ def config_file(params, directory):
     else:
         name, text = "config.yaml", yaml_text(params)
     if error == "unknown-extension":
-        name = "config.toml"
+        name = params.get("file_name", "config.toml")
     path = os.path.join(directory, name)
     with open(path, "w") as stream:
         stream.write(text)
@@ -362,6 +366,10 @@ def scenario_params(tier):
                             "forms": ("type",), "end": "error", "error": error})
     out.append({"format": "py", "shape": ("broken", "pool"), "flavour": "trio",
                 "forms": ("tag",), "end": "error", "error": "constructor-typeerror"})
+    for name in ODD_FILE_NAMES:
+        out.append({"format": "py" if ".py" in name else "yaml", "shape": ("svc", "pool"),
+                    "flavour": "trio", "forms": ("tag",), "end": "error",
+                    "error": "unknown-extension", "file_name": name})
     return out
 
 
@@ -475,6 +483,10 @@ def process_params(tier):
         shape = ("broken", "pool") if error == "constructor-typeerror" else ("svc", "pool")
         out.append({"format": fmt, "shape": shape, "flavour": "trio", "forms": ("tag",),
                     "end": "error", "error": error})
+    for name in ([".yaml"] if tier == "quick" else ODD_FILE_NAMES):
+        out.append({"format": "py" if ".py" in name else "yaml", "shape": ("svc", "pool"),
+                    "flavour": "trio", "forms": ("tag",), "end": "error",
+                    "error": "unknown-extension", "file_name": name})
     return out
 
 
